@@ -68,9 +68,9 @@ type c17ChartSpec struct {
 	Keywords    []string `json:"keywords,omitempty"`
 	// Notes, when set, becomes the annotation "notes" (annotation values keep their line breaks in the signed text,
 	// unlike the description, which is flattened)
-	Notes string `json:"notes,omitempty"`
-	Body  string `json:"body"`
-	BulkKB      int      `json:"bulk_kb,omitempty"` // extra incompressible file so that the archive exceeds common buffer sizes
+	Notes  string `json:"notes,omitempty"`
+	Body   string `json:"body"`
+	BulkKB int    `json:"bulk_kb,omitempty"` // extra incompressible file so that the archive exceeds common buffer sizes
 }
 
 // c17Case is the concrete, replayable case.
@@ -985,11 +985,11 @@ func c17MergeSigPackets(t *rapid.T, a, b []byte, aFirst bool) []byte {
 // tests
 
 func c17Extras() {
-	evid.Extra("rule", "case = small generated chart saved with chartutil.Save, signed by Helm (Signatory.ClearSign via entity / key files, or action.Package --sign) with one of 4 fixed keys "+
+	evid.Extra("rule", "case = small generated chart (optionally with a multi-line annotation containing '...' / '---' lines) saved with chartutil.Save, signed by Helm (Signatory.ClearSign via entity / key files, or action.Package --sign) with one of 4 fixed keys "+
 		"(3 committed RSA-2048 pairs, one sharing its user id with another, + the repo's test key), then ONE mutation class: archive flip/truncate/append/substitute; attacker edits "+
-		"(digest patched, unsigned prefix/suffix listing the new digest, extra block by another key); provenance bit flips per region, truncation, missing file, digest digit, file name, metadata edit; "+
+		"(digest patched, unsigned prefix/suffix listing the new digest, extra block by another key); provenance bit flips per region, truncation, zero-length file, missing file, digest digit, file name, metadata edit; "+
 		"non-semantic edits (trailing blanks, CRLF, armor comment, Hash header); doubled blocks; renamed archive; library-crafted messages (right/wrong/one-digit-off digest, wrong name, two files, metadata mismatch, two signature packets); "+
-		"keyring = signer present (+others) / other keys only / empty. Every case runs Signatory.Verify (in-memory and file keyring), downloader.VerifyChart, action.Verify.Run, "+
+		"keyring = signer present (+others) / other keys only / empty. Before every verification an unrelated provenance.Digest that fails half-way may run. Every case runs Signatory.Verify (in-memory keyring, file keyring, and a Signatory that also holds the signer's private key), downloader.VerifyChart, action.Verify.Run, "+
 		"ChartPathOptions.LocateChart(Verify) and ChartDownloader.DownloadTo(VerifyAlways) over a local HTTP transport. Oracle: round trip must accept with FileHash=sha256(bytes); must-reject facts "+
 		"(no keyring key signed, digest/name absent from the text, prov missing); accept <=> independent reference verifier (first block; any-block differences only noted); all wrappers error iff Signatory.Verify errors. "+
 		"non-trivial = the provenance still parses as >=1 clearsigned block; distinct = chart coordinates+description+key+route+ring+mutation with parameters")
